@@ -520,6 +520,12 @@ func c02receivers(c *Ctx, m *clipModel, a *c02, q *oStruct) {
 				}
 				break
 			}
+			if len(cs.verts) > 0 && len(asked) == 0 {
+				// the vertices are classified without the function the oracle stands in for (inlined,
+				// or through a copy of it specialised for this receiver): its answers decide nothing here
+				v[1] = fmt.Sprintf("%s.Within classifies its vertices without calling %s, which Point.Within goes through and the oracle replaces: the per-vertex classification of this receiver is not modelled", cs.name, c.P.FuncName(classifier))
+				break
+			}
 			st, ok := res[0].(oInt)
 			anyOut := false
 			for _, s := range sn {
